@@ -460,6 +460,18 @@ func inputChunk(tw *trace.Writer, rng *rand.Rand, names []string, n int, exh boo
 				tw.Emit(e)
 				runs++
 			}
+			if rng.Intn(4) == 0 {
+				// the same string on a decoder that has already decoded something and seen the timeout: nothing of the
+				// earlier input (Alt flag, held bytes) may carry over, so the prediction for a fresh decoder applies
+				priors := [][]byte{{0x1b}, {0x1b, 0x1b}, {0x1b, '['}, {0x1b, 'O'}, []byte("\x1b[<0;1"), {0xe4, 0xb8}, []byte("\x1b]52;c;QQ"), []byte("\x1b[M ")}
+				var vp *tcell.VerifParser
+				decode(g.ti, "UTF-8", 80, 24, [][]byte{priors[rng.Intn(len(priors))]}, &vp)
+				r := decode(g.ti, "UTF-8", 80, 24, [][]byte{b}, &vp)
+				e := runEvent("Run", 1<<24+id, b, nil, r)
+				e["tokens"] = 0
+				tw.Emit(e)
+				runs++
+			}
 		}
 	}
 	st["histories"], st["ops"], st["distinct"], st["samples"] = strs, runs, len(distinct), samples
@@ -641,6 +653,22 @@ func inputKeys(tw *trace.Writer, rng *rand.Rand, names []string, npairs int, st 
 		}
 		r := decode(g.ti, "UTF-8", 80, 24, [][]byte{{0x1b}}, nil)
 		tw.Emit(runEvent("EscDecode", 0, []byte{0x1b}, nil, r))
+		// once the timeout has delivered a lone ESC (or ESC ESC), the decoder is back in its initial state:
+		// the next sequence decodes as it does on a fresh decoder
+		for i, s := range all {
+			if i%5 != 0 && len(all) > 20 {
+				continue
+			}
+			for _, prior := range [][]byte{{0x1b}, {0x1b, 0x1b}} {
+				var vp *tcell.VerifParser
+				decode(g.ti, "UTF-8", 80, 24, [][]byte{prior}, &vp)
+				r := decode(g.ti, "UTF-8", 80, 24, [][]byte{[]byte(s)}, &vp)
+				e := runEvent("AfterEsc", 0, []byte(s), nil, r)
+				e["prior"] = trace.Ints(prior)
+				tw.Emit(e)
+				decodes++
+			}
+		}
 		// xterm modifier forms for cursor / editing / function keys
 		for i := 0; i < npairs && len(all) > 1; i++ {
 			a, b := all[rng.Intn(len(all))], all[rng.Intn(len(all))]
